@@ -255,7 +255,7 @@ func c18Execute(g Getter, prog [][]c18Op, prefix []int, pick func(n int) int) *c
 				}
 				run.trace = append(run.trace, fmt.Sprintf("w%d:%s(%d)", ev.w.id, ev.point, ev.ref.Number()))
 			}
-		case <-time.After(20 * time.Second):
+		case <-time.After(c18StepTimeout):
 			// the granted worker neither reached a point nor finished: it is
 			// blocked on something the hooks do not model.  This is reported
 			// as inconclusive infrastructure trouble, not as a verdict.
@@ -472,12 +472,29 @@ var c18Model = porcupine.Model{
 }
 
 // c18Judge applies the oracles to one completed schedule.
+// c18StepTimeout is the wall-clock watchdog for one scheduling step.  A worker
+// that neither reaches a point nor finishes within it is blocked on something
+// the hooks do not model - or starved on an overloaded machine: the schedule
+// is run a second time with a longer watchdog, and only a block that
+// reproduces (schedules are deterministic) is a verdict.
+var c18StepTimeout = 20 * time.Second
+
 func c18Judge(c *kit.Case, p c18Program, run *c18Run, objs c18Getter) {
+	if run.stuck != "" {
+		old := c18StepTimeout
+		c18StepTimeout = 90 * time.Second
+		again := c18Execute(objs, p.prog, run.choices, nil)
+		c18StepTimeout = old
+		if again.stuck == "" {
+			c.R.Count("watchdog_firings_not_reproduced", 1)
+			run = again
+		}
+	}
 	ctx := func() string {
 		return fmt.Sprintf("program %s\nschedule (choices) %v\ntrace %s", p.name, run.choices, strings.Join(run.trace, " "))
 	}
 	if run.stuck != "" {
-		c.Violationf("infrastructure/stuck", "%s\n%s", ctx(), run.stuck)
+		c.Violationf("blocked-outside-the-protocol/"+p.name, "%s\n%s (reproduced with a 90 s watchdog)", ctx(), run.stuck)
 		return
 	}
 	if run.protocol != "" {
